@@ -133,6 +133,21 @@ Theorem C04_memo_verdict_deterministic : forall pi1 pi2 S F D,
   (validate_model_memo repaired pi1 S F D = Done [] /\ validate_model_memo repaired pi2 S F D = Done []) \/
   (exists e1 l1 e2 l2, validate_model_memo repaired pi1 S F D = Done (e1 :: l1) /\ validate_model_memo repaired pi2 S F D = Done (e2 :: l2)).
 Proof. exact validate_memo_verdict_order. Qed.
+(** the same with the hypothesis on the document as parsed: NewTypeInfo does not touch positions
+    ([field_positions D]: the positions of the field selections written in D, selection set by
+    selection set) — dischargeable from C06_parse_pos_injective through the Syn -> Vld conversion *)
+Theorem C04_field_positions_of_annotated : forall qo S F D,
+  field_positions_distinct (pti_doc qo S F D) <-> doc_field_positions_distinct D.
+Proof. exact field_positions_distinct_pti. Qed.
+Theorem C04_memo_equiv_parsed : forall pi S F D,
+  order_ok pi -> doc_field_positions_distinct D ->
+  (validate_model_memo repaired pi S F D = Done [] <-> validate_model repaired pi S F D = Done []).
+Proof. exact validate_memo_iff_parsed. Qed.
+Theorem C04_memo_accept_deterministic_parsed : forall pi1 pi2 S F D,
+  order_ok pi1 -> order_ok pi2 -> doc_field_positions_distinct D ->
+  (validate_model_memo repaired pi1 S F D = Done [] <-> validate_model_memo repaired pi2 S F D = Done []).
+Proof. exact validate_memo_accept_order_parsed. Qed.
+
 (** the rule-level statement, for any quirks: a silent memoised overlapping-fields pass implies a
     silent plain one, given the depth bound for the collected fields *)
 Theorem C04_memo_never_hides_a_conflict : forall pi, order_ok pi -> forall q S D,
@@ -353,6 +368,9 @@ Print Assumptions C04_spreads_silent_acyclic.
 Print Assumptions C04_memo_equiv.
 Print Assumptions C04_memo_accept_deterministic.
 Print Assumptions C04_memo_verdict_deterministic.
+Print Assumptions C04_field_positions_of_annotated.
+Print Assumptions C04_memo_equiv_parsed.
+Print Assumptions C04_memo_accept_deterministic_parsed.
 Print Assumptions C04_memo_never_hides_a_conflict.
 Print Assumptions C04_typeinfo_arguments.
 Print Assumptions C04_typeinfo_list_items.
